@@ -163,8 +163,16 @@ Definition add_job (s : lim) (j : job) : lim :=
   then set_wp s (aput p (wl_get p (waitingOnPeer s) ++ [j]) (waitingOnPeer s))
   else add_check_fd (set_act s (act_set p (act_get p (activePerPeer s) + 1) (activePerPeer s))) j.
 
-(* clearAllPeerDials *)
-Definition clear_peer (s : lim) (p : Z) : lim := set_wp s (adel p (waitingOnPeer s)).
+(* clearAllPeerDials (as repaired by "fix: swarm: clearAllPeerDials dropped the live dial jobs
+   of a newer active dial"): only the jobs whose context is done are dropped; the entry is
+   deleted when nothing is kept *)
+Definition clear_peer (s : lim) (p : Z) : lim :=
+  set_wp s (wl_set p (filter (fun j => negb (is_cancelled s j)) (wl_get p (waitingOnPeer s)))
+                   (waitingOnPeer s)).
+
+(* the code before that repair: delete(dl.waitingOnPeerLimit, p).  Kept only for the
+   non-vacuity example in Properties.v (the witness of the repaired defect). *)
+Definition clear_peer_old (s : lim) (p : Z) : lim := set_wp s (adel p (waitingOnPeer s)).
 
 (* remove the first job with the given id *)
 Fixpoint take_job (id : Z) (l : list job) : option (job * list job) :=
